@@ -26,3 +26,4 @@ def run(ctx, rep):
     objmodel.rule_delete_clears_every_table(ctx, rep, "C08-R19")
     objmodel.rule_constructor_result_objects_include_functions(ctx, rep, "C08-R20")
     objmodel.rule_own_questions_stay_on_the_receiver(ctx, rep, "C08-R21")
+    objmodel.rule_delete_answers_gone(ctx, rep, "C08-R22")
